@@ -546,3 +546,47 @@ theorem restore_own (env : Env) (T : MJ) (inv : TreeInv T) (strs : List String)
     exact ⟨rfl, rfl⟩
 
 end Impl
+
+namespace Impl
+
+/-- `restore_own` with what is known of the reported paths -/
+theorem restore_own_paths (env : Env) (T : MJ) (inv : TreeInv T) (strs : List String)
+    (hstr : ∀ s ∈ strs, ∃ e ∈ T.discs, e.digest ∉ T.deepStale ∧
+      fromBase64 env s = .ok ⟨s, e.digest, e.key, e.value⟩)
+    (hnd : (strs.map env.hash).Nodup) :
+    ∃ c ps L, restoreAll env T.payload strs = .ok (c, ps) ∧
+      removeAll c = T.project (fun g => strs.any (fun s => env.hash s = g)) ∧
+      (∀ d ∈ L, ∃ s ∈ strs, fromBase64 env s = .ok d) ∧
+      (∀ s ∈ strs, ∃ d ∈ L, fromBase64 env s = .ok d) ∧ PathsOK T L ps := by
+  have hndiscs : (T.discs.map (·.digest)).Nodup := by rw [MJ.discs_digest]; exact inv.ndm
+  refine restoreAll_paths env T strs inv (fun s hs => ?_) hnd (fun s hs d hf => ?_)
+  · obtain ⟨e, _, _, hf⟩ := hstr s hs
+    exact ⟨_, hf⟩
+  · obtain ⟨e, hein, hfr, hf'⟩ := hstr s hs
+    rw [hf'] at hf
+    cases hf
+    refine ⟨⟨hfr, ?_⟩, MJ.discs_hiddenE T e hein⟩
+    intro e' he' heq
+    have := nodup_map_inj (·.digest) T.discs hndiscs e' he' e hein heq
+    subst this
+    exact ⟨rfl, rfl⟩
+
+/-- a subtree without marks contributes no path -/
+theorem paths_nil_of_no_marks (x : MJ) (p : String) (h : x.allMarks = []) : x.paths p = [] := by
+  have := MJ.paths_snd x p
+  rw [h] at this
+  simpa using this
+
+theorem paths_insClear (k : String) (x : MJ) (p : String) (hx : x.allMarks = []) :
+    (ms : MMems) → (ms.insClear k x).paths p = ms.paths p
+  | .nil => by simp [MMems.insClear, MMems.paths, paths_nil_of_no_marks x _ hx]
+  | .clear k' x' r => by
+    simp only [MMems.insClear]; split
+    · simp [MMems.paths, paths_nil_of_no_marks x _ hx]
+    · simp [MMems.paths, paths_insClear k x p hx r]
+  | .marked k' dg x' r => by
+    simp only [MMems.insClear]; split
+    · simp [MMems.paths, paths_nil_of_no_marks x _ hx]
+    · simp [MMems.paths, paths_insClear k x p hx r]
+
+end Impl
